@@ -214,7 +214,8 @@ async def _sim_call_and_capture_failure(handler, call):
 
     txns = w.task_txn.pop(id(task), []) if task is not None else []
     if isinstance(result, RemoteFailure):
-        w.log_event("rpc_out", rid, call.name, "fail", result.qualname, result.message[:400])
+        stopping = bool(w.handler is not None and w.handler.stop_event.is_set())
+        w.log_event("rpc_out", rid, call.name, "fail", result.qualname, result.message[:400], stopping)
         for m in w.monitors:
             m.on_rpc_failure(w, rid, call, result)
             m.on_rpc_done(w, call, False)
